@@ -36,3 +36,10 @@ claim("C10", "CFG dominance of required guards, refusal-reason enumeration, stic
 claim("C12", "comparator analysis (key-based argmin premise of rendezvous hashing)",
       "Structural premise of rendezvous hashing decided (same key expression at i and j, key inputs = node name and first address only, winner = element 0 of the sorted list); minimal failover follows mathematically. ELECTION-SCOPE is a recorded known finding (D9).",
       NOTE, "DESIGN.md section 5, C12")
+
+claim("C08", "for-all-loop guard analysis, CFG dominance, field ownership, emptiness guard on parser results",
+      "The accept path of the configuration always runs the exactness / disjointness / node-IP / containment / local-preference checks for every element, and the parser cannot accept an entry yielding nothing; decided on all paths. Not a proof of the arithmetic inside ipaddr.Summarize or of selector semantics.",
+      NOTE, "DESIGN.md section 5, C08")
+claim("C18", "map-iteration-order taint analysis over the call-graph closure, comparator analysis (SORT-IDX, total order), field coverage, CFG dominance",
+      "Neither API listing order nor Go map order can reach the compared configuration value: all listed kinds are sorted copies, no map-ordered slice escapes unsorted from the closure of config.For/toConfig, comparators index what they sort, reconcilers compare before applying. Decided for every input at once. Not decided: last-writer-wins value questions beyond the structural MAP-LWW rule, order of error messages.",
+      NOTE, "DESIGN.md section 5, C18")
